@@ -205,7 +205,7 @@ Definition floors_of (use_floor : bool) (an : list (list Z)) (ncol : nat) : opti
 
 (* read_sync(_slice, threshold, floor_percentile):
      digital = self.read_sync_digital(_slice); analog = self.read_sync_analog(_slice)
-     if analog is not None and floor_percentile: analog -= np.percentile(analog, 10, axis=0)
+     if analog is not None and floor_percentile and analog.size: analog -= np.percentile(analog, 10, axis=0)
      if analog is None: return digital
      analog[analog < threshold] = 0; analog[analog >= threshold] = 1
      return np.concatenate((digital, np.int8(analog)), axis=1)
@@ -221,12 +221,10 @@ Definition read_sync (typ ntr c0 c1 c2 c3 start stop one thr gain : Z)
       | None => None
       | Some None => Some digital
       | Some (Some an) =>
-          match use_floor, an with
-          | true, [] => None        (* np.percentile of an empty column: IndexError *)
-          | _, _ =>
-              let floors := floors_of use_floor an (length (analog_indices typ c0 c1 c2 c3)) in
-              hconcat digital (map (digitise_row (10 * one) (10 * thr) 10 floors) an)
-          end
+          (* `... and floor_percentile and analog.size`: an empty selection skips the floor; with no
+             row the floors are never looked at, so no case distinction is needed here *)
+          let floors := floors_of use_floor an (length (analog_indices typ c0 c1 c2 c3)) in
+          hconcat digital (map (digitise_row (10 * one) (10 * thr) 10 floors) an)
       end
   end.
 
